@@ -447,6 +447,22 @@ Theorem power_sum_app st st' : power_sum (st ++ st') = fadd (power_sum st) (powe
 Proof. induction st as [|p st IH]; cbn [power_sum app]; [ring | rewrite IH; ring]. Qed.
 (* the total noise power of a container: per identifier the coherent sum, across identifiers the power sum *)
 Definition noise_power (l : list nitem) : K := total_power (nstore l).
+(* summary for two noise values: same identifier => amplitudes add,
+   distinct identifiers => powers add *)
+Theorem noise_add (i j : nat) (a b : K) :
+  (i = j -> nlookup i (nstore [(i, a); (j, b)]) = fadd a b) /\
+  (i <> j -> noise_power [(i, a); (j, b)] = fadd (nsq a) (nsq b) \/ a = f0 \/ b = f0).
+Proof.
+  split.
+  - intros <-. destruct (noise_add_same_id [(i, a); (i, b)]) as [_ H]. rewrite H. cbn [namp]. rewrite Nat.eqb_refl. ring.
+  - intros Hij. destruct (fdec K a f0) as [Ea|Ea]; [right; left; exact Ea|].
+    destruct (fdec K b f0) as [Eb|Eb]; [right; right; exact Eb|]. left.
+    unfold noise_power, nstore. cbn [fold_left add_noise nhas existsb].
+    destruct (fdec K a f0) as [E|_]; [contradiction|]. cbn [app nhas existsb fst].
+    assert (Nat.eqb j i = false) as -> by (apply Nat.eqb_neq; intros E; apply Hij; symmetry; exact E).
+    cbn [orb]. destruct (fdec K b f0) as [E|_]; [contradiction|].
+    cbn [app]. unfold total_power. cbn [fold_left snd]. unfold qadd. ring.
+Qed.
 End Sup.
 
 Arguments Tm {K}. Arguments tkey {K}. Arguments tcls {K}. Arguments timg {K}. Arguments simg {K}. Arguments pre {K}. Arguments pim {K}.
